@@ -21,6 +21,8 @@ func init() {
 			"The version handed to serialize and to the response object is the selected one. NOT decided: capability / session-id extraction for arbitrary hello layouts (regular expressions), read segmentation.",
 		Assumptions: []string{"ServerHasCapability is membership in the advertised list (checked: loop returns true on equality only)", "regexp semantics opaque"},
 		Mutants: []Mutant{
+			{ID: "C09-greedy-capability", Desc: "capability capture made greedy", Rule: "C09/capability-capture",
+				Edits: []Edit{{File: "driver/netconf/driver.go", Old: "capability>)(.*?)(?:</", New: "capability>)\\s*(\\S+)\\s*(?:</"}}},
 			{ID: "C09-pref10-on-11", Desc: "preferred 1.0 accepted when only 1.1 is advertised", Rule: "C09/version-table",
 				Edits: []Edit{{File: "driver/netconf/capabilities.go", Old: "\tcase V1Dot0:\n\t\tif d.ServerHasCapability(v1Dot0Cap) {", New: "\tcase V1Dot0:\n\t\tif d.ServerHasCapability(v1Dot0Cap) || d.ServerHasCapability(v1Dot1Cap) {"}}},
 			{ID: "C09-10-first", Desc: "1.0 preferred over 1.1 when both advertised", Rule: "C09/version-table",
@@ -118,6 +120,7 @@ func runC09(c *Ctx, r *Report) {
 	r.Rule("C09/version-table", "determineVersion implements the 12-cell negotiation table (selected version, delimiter installed, error class)", 12)
 	r.Rule("C09/hello", "each client hello constant carries exactly one capability, the URN of its own version, end-of-message framed; sendClientCapabilities writes the hello of the selected version", 4)
 	r.Rule("C09/open-order", "Open: channel open, server capabilities, version, client hello (once), then the reader; every error after the channel opened closes it", 5)
+	r.Rule("C09/capability-capture", "the capability pattern's capture is non-greedy or excludes '<', so adjacent capability elements are never merged whatever the hello layout", 1)
 	r.Rule("C09/hello-required", "a server greeting without <hello> yields ErrNetconfError", 1)
 	r.Rule("C09/framing-follows-selection", "serialize and the response object are given the selected version", 2)
 
@@ -130,6 +133,7 @@ func runC09(c *Ctx, r *Report) {
 	}
 	cap10, cap11 := "urn:ietf:params:netconf:base:1.0", "urn:ietf:params:netconf:base:1.1"
 	checkHasCapability(c, r, has)
+	checkCapabilityCapture(c, r)
 	cfg := &dtConfig{IsAtomCall: func(call *ssa.Call) bool {
 		sc := call.Call.StaticCallee()
 		if sc == has || (getPat != nil && sc == getPat) {
